@@ -260,7 +260,9 @@ func (p *Proxy) handleLoop(conn net.Conn) {
 		deadline := time.Now().Add(p.timeout)
 		conn.SetDeadline(deadline)
 
-		if err := p.handle(ctx, conn, brw); isCloseable(err) {
+		// The session moves to a TLS connection when MITM upgrades a CONNECT tunnel: later
+		// requests are read from, and described by, that connection.
+		if err := p.handle(ctx, s.connection(), brw); isCloseable(err) {
 			log.Debugf("martian: closing connection: %v", conn.RemoteAddr())
 			return
 		}
@@ -370,6 +372,7 @@ func (p *Proxy) handleConnectRequest(ctx *Context, req *http.Request, session *S
 			}
 			brw.Writer.Reset(nconn)
 			brw.Reader.Reset(nconn)
+			session.setConn(nconn, brw)
 			return p.handle(ctx, nconn, brw)
 		}
 
